@@ -37,9 +37,20 @@ type c08Case struct {
 	Versions     []c08Version `json:"versions"`
 	T            int          `json:"t"`       // logical edit time of the commit
 	Variant      string       `json:"variant"` // right removed future stranger unsigned altered
+	// Shape: which commit is the one under test. "" / "root": the first commit (create operation);
+	// "empty-child" / "op-child": a correctly signed root at edit time 1, then the tested commit as its
+	// child, with an empty operation pack (what a merge commit carries) or with one comment.
+	Shape string `json:"shape,omitempty"`
 }
 
 var c08Variants = []string{"right", "removed", "future", "stranger", "unsigned", "altered"}
+
+func shapeName(s string) string {
+	if s == "" {
+		return "root"
+	}
+	return s
+}
 
 func genC08(t *rapid.T) c08Case {
 	c := c08Case{Seed: rapid.Uint64().Draw(t, "seed"), ClockAtFirst: rapid.Bool().Draw(t, "clockAtFirst")}
@@ -58,6 +69,7 @@ func genC08(t *rapid.T) c08Case {
 	}
 	c.T = rapid.IntRange(1, total+3).Draw(t, "t")
 	c.Variant = rapid.SampledFrom(c08Variants).Draw(t, "variant")
+	c.Shape = rapid.SampledFrom([]string{"root", "root", "empty-child", "op-child"}).Draw(t, "shape")
 	return c
 }
 
@@ -163,6 +175,10 @@ func runC08(tb report.TB, rep *report.Reporter, c c08Case) {
 		return result
 	}
 	T := uint64(c.T)
+	child := c.Shape == "empty-child" || c.Shape == "op-child"
+	if child {
+		T++ // the root sits at edit time 1
+	}
 	inForce := inForceAt(T)
 	has := func(set []int, k int) bool {
 		for _, x := range set {
@@ -202,7 +218,7 @@ func runC08(tb report.TB, rep *report.Reporter, c c08Case) {
 	switch variant {
 	case "right", "altered":
 		if len(inForce) > 0 {
-			signer = inForce[int(c.Seed)%len(inForce)]
+			signer = inForce[int(c.Seed%uint64(len(inForce)))]
 		} else {
 			variant = "unsigned"
 		}
@@ -241,10 +257,44 @@ func runC08(tb report.TB, rep *report.Reporter, c c08Case) {
 		tb.Fatalf("harness: %v", err)
 	}
 	var commit repository.Hash
+	var parents []repository.Hash
+	if child {
+		// the root: edit time 1, signed by a key in force at that time (unsigned when there is none): always acceptable
+		rootEntries := append([]repository.TreeEntry(nil), entries...)
+		rootEntries[2].Name = "edit-clock-1"
+		rth, err := repo.StoreTree(rootEntries)
+		if err != nil {
+			tb.Fatalf("harness: %v", err)
+		}
+		var root repository.Hash
+		if at1 := inForceAt(1); len(at1) > 0 {
+			root, err = repo.StoreSignedCommit(rth, pool[at1[0]].PGPEntity())
+		} else {
+			root, err = repo.StoreCommit(rth)
+		}
+		if err != nil {
+			tb.Fatalf("harness: store root: %v", err)
+		}
+		parents = []repository.Hash{root}
+		childBlob := ondisk.EmptyOpsBlob(string(author.Id()))
+		if c.Shape == "op-child" {
+			n2 := base64.StdEncoding.EncodeToString(NonceFor(c.Seed, 2))
+			childBlob = ondisk.OpsBlob(string(author.Id()), []json.RawMessage{json.RawMessage(fmt.Sprintf(`{"type":3,"timestamp":1235,"nonce":%q,"message":"a comment","files":null}`, n2))})
+		}
+		cbh, _ := repo.StoreData(childBlob)
+		entries = []repository.TreeEntry{
+			{ObjectType: repository.Blob, Hash: empty, Name: "version-4"},
+			{ObjectType: repository.Blob, Hash: cbh, Name: "ops"},
+			{ObjectType: repository.Blob, Hash: empty, Name: fmt.Sprintf("edit-clock-%d", T)},
+		}
+		if th, err = repo.StoreTree(entries); err != nil {
+			tb.Fatalf("harness: %v", err)
+		}
+	}
 	if signer >= 0 {
-		commit, err = repo.StoreSignedCommit(th, pool[signer].PGPEntity())
+		commit, err = repo.StoreSignedCommit(th, pool[signer].PGPEntity(), parents...)
 	} else {
-		commit, err = repo.StoreCommit(th)
+		commit, err = repo.StoreCommit(th, parents...)
 	}
 	if err != nil {
 		tb.Fatalf("harness: store commit: %v", err)
@@ -285,9 +335,9 @@ func runC08(tb report.TB, rep *report.Reporter, c c08Case) {
 	for _, v := range ref {
 		pattern = append(pattern, fmt.Sprintf("%d", len(v.keys)))
 	}
-	rep.Case(fmt.Sprintf("%s|%s|%s|clk%v", strings.Join(pattern, ""), rel, variant, c.ClockAtFirst),
+	rep.Case(fmt.Sprintf("%s|%s|%s|clk%v|%s", strings.Join(pattern, ""), rel, variant, c.ClockAtFirst, shapeName(c.Shape)),
 		len(inForce) > 0 && variant != "right",
-		[]string{"variant:" + variant, rel, fmt.Sprintf("versions:%d", len(ref)), fmt.Sprintf("expect-accept:%v", wantAccept)}, c)
+		[]string{"variant:" + variant, rel, fmt.Sprintf("versions:%d", len(ref)), fmt.Sprintf("expect-accept:%v", wantAccept), "shape:" + shapeName(c.Shape)}, c)
 
 	detail := func(extra string) string {
 		return fmt.Sprintf("versions (bugs-edit time / keys): %+v\ncommit at edit time %d, variant %s (signer key %d), keys in force %v, expected accept=%v\n%s", ref, T, variant, signer, inForce, wantAccept, extra)
